@@ -335,6 +335,26 @@ theorem shape_step {cfg : Cfg} {s s' : State} {l : Label} {o : Out}
           · simpa using hnp
         · intro hk; exact ⟨by simpa using (nonempty hk).1, by simp⟩
     · cases hs
+  | moveTx =>
+    simp only [stepOut] at hs
+    split at hs
+    · split at hs
+      · simp only [Option.some.injEq, Prod.mk.injEq] at hs
+        obtain ⟨_, rfl⟩ := hs
+        exact ⟨hrx, hch⟩
+      · simp only [Option.some.injEq, Prod.mk.injEq] at hs
+        obtain ⟨_, rfl⟩ := hs
+        obtain ⟨closedEnd, noCut, sizePending, sizeAnnounced, sizeDropped, deadClosed, nonempty⟩ := hch
+        have hne := closeData_dataEnd_ne_open s.ch
+        refine ⟨hrx, ⟨fun _ => hne, ?_, by simpa using sizePending, by simpa using sizeAnnounced,
+          by simpa using sizeDropped, by simp, ?_⟩⟩
+        · intro hcut
+          refine ⟨?_, by simpa using (noCut hcut).2⟩
+          rcases closeData_cases s.ch with ⟨_, h2⟩ | ⟨_, h2⟩ <;> rw [h2]
+          · simp
+          · exact (noCut hcut).1
+        · intro hk; exact ⟨by simpa using (nonempty hk).1, by simp⟩
+    · cases hs
   | read n seg =>
     simp only [stepOut] at hs
     split at hs
